@@ -274,13 +274,13 @@ var _ = bytes.Equal
 
 func init() {
 	lib.Register(&lib.Property{
-		ID:    "C08",
-		Level: "exploration",
-		Rule: "builds of 1..6 high-entropy files (100 bytes .. 5 MiB+3, one 40 MiB file in thorough) and derivations: identical build, rename all, duplicate x3 (with/without original), contents rotated between existing paths, an existing path overwritten by a copy of another old file, k in 1..4 localized edits (overwrite / insertion / deletion of {1,10,1000,B-1,B,B+1,100000,300000} bytes at offsets inside the first block, at block boundaries, inside the last two blocks, anywhere), mixed. Oracle: per-file DATA / BLOCK_RANGE accounting from the independently decoded patch, cross-checked with DiffContext.FreshBytes/ReusedBytes; files equal to an old file carry 0 DATA bytes; fresh <= introduced + (2k+2)*64KiB per edited file. distinct = distinct (derivation, k, file count, big)",
+		ID:          "C08",
+		Level:       "exploration",
+		Rule:        "builds of 1..6 high-entropy files (100 bytes .. 5 MiB+3, one 40 MiB file in thorough) and derivations: identical build, rename all, duplicate x3 (with/without original), contents rotated between existing paths, an existing path overwritten by a copy of another old file, k in 1..4 localized edits (overwrite / insertion / deletion of {1,10,1000,B-1,B,B+1,100000,300000} bytes at offsets inside the first block, at block boundaries, inside the last two blocks, anywhere), mixed. Oracle: per-file DATA / BLOCK_RANGE accounting from the independently decoded patch, cross-checked with DiffContext.FreshBytes/ReusedBytes; files equal to an old file carry 0 DATA bytes; fresh <= introduced + (2k+2)*64KiB per edited file. distinct = distinct (derivation, k, file count, big)",
 		Assumptions: []string{"the bound is evaluated on high-entropy content only (the statement's domain)", "introduced = bytes inserted or overwritten by the generator; deletions introduce 0"},
-		Cases: c08Cases,
-		Run:   c08Run,
-		Batch: 5,
-		CaseBudget: 600 * 1e9,
+		Cases:       c08Cases,
+		Run:         c08Run,
+		Batch:       5,
+		CaseBudget:  600 * 1e9,
 	})
 }
